@@ -21,9 +21,29 @@ def chunks(items, n):
 
 
 def parallel_map(fn, jobs, workers: int = WORKERS, maxtasks: int | None = 40):
-    """jobs: list of picklable arguments; returns results in order."""
+    """jobs: list of picklable arguments; returns results in order.
+
+    concurrent.futures instead of multiprocessing.Pool: a worker process that dies (a crash of the interpreter in
+    a generated program) breaks the pool with an exception instead of leaving map() waiting for ever.  Workers are
+    recycled by starting a fresh executor for every batch of jobs."""
+    import concurrent.futures as cf
+    from concurrent.futures.process import BrokenProcessPool
     if not jobs:
         return []
     ctx = mp.get_context("fork")
-    with ctx.Pool(min(workers, len(jobs)), initializer=_init, maxtasksperchild=maxtasks) as pool:
-        return pool.map(fn, jobs, chunksize=1)
+    out = []
+    batch = max(1, workers * (maxtasks or 40))
+    for i in range(0, len(jobs), batch):
+        part = jobs[i:i + batch]
+        try:
+            with cf.ProcessPoolExecutor(min(workers, len(part)), mp_context=ctx, initializer=_init) as ex:
+                out += list(ex.map(fn, part, chunksize=1))
+        except BrokenProcessPool:
+            # find the job that kills its worker: one job per process
+            for job in part:
+                try:
+                    with cf.ProcessPoolExecutor(1, mp_context=ctx, initializer=_init) as ex:
+                        out.append(ex.submit(fn, job).result())
+                except BrokenProcessPool:
+                    raise RuntimeError("a worker process died while running %s on %.300r" % (getattr(fn, "__name__", fn), job))
+    return out
